@@ -193,6 +193,30 @@ func (w *World) Apply(line string) (final string, result string) {
 		}
 		w.drain()
 		return line, "ok"
+	case f[0] == "pod" && len(f) == 5 && f[1] == "term":
+		// graceful deletion begins: the apiserver sets metadata.deletionTimestamp, the pod stays (its containers get
+		// the grace period); the informer hands the update (old, new) to UpdatePod
+		w.LastOp.Kind = "term"
+		pod := w.TruthPod(f[2], f[3])
+		if pod == nil {
+			return line, "err not-found"
+		}
+		if pod.DeletionTimestamp != nil {
+			return line, "err bad-input"
+		}
+		np := pod.DeepCopy()
+		ts := metav1.NewTime(time.Unix(1700000000, 0))
+		np.DeletionTimestamp = &ts
+		grace := int64(30)
+		np.DeletionGracePeriodSeconds = &grace
+		w.Kube.CoreV1().Pods(f[2]).Update(ctx, np, metav1.UpdateOptions{})
+		w.Cnt.Reset(atoiDef(f[4]))
+		w.Prov.Reset(0)
+		if o := guard(func() { w.Plugin.UpdatePod(pod.DeepCopy(), np.DeepCopy()) }); o != "ok" {
+			return line, o
+		}
+		w.drain()
+		return line, "ok"
 	case f[0] == "pod" && len(f) == 4 && f[1] == "run":
 		w.LastOp.Kind = "run"
 		pod := w.TruthPod(f[2], f[3])
@@ -243,7 +267,7 @@ func (w *World) Apply(line string) (final string, result string) {
 		return line, "ok"
 	case (f[0] == "filter" || f[0] == "preempt") && len(f) == 7:
 		return w.applyFilter(f)
-	case f[0] == "bind" && len(f) == 9:
+	case f[0] == "bind" && (len(f) == 9 || (len(f) == 10 && (f[9] == "lost" || f[9] == "unavail" || f[9] == "truthful"))):
 		return w.applyBind(f)
 	case f[0] == "deliver" && len(f) == 4:
 		i := atoiDef(f[1])
@@ -672,6 +696,11 @@ func (w *World) applyBind(f []string) (string, string) {
 	}
 	w.Cnt.Reset(atoiDef(f[7]))
 	w.Prov.Reset(atoiDef(f[8]))
+	if len(f) == 10 && f[9] != "truthful" {
+		w.Cnt.mu.Lock()
+		w.Cnt.BindMode = f[9]
+		w.Cnt.mu.Unlock()
+	}
 	plogBefore := len(w.Prov.Log)
 	var err error
 	crashed := false
